@@ -707,6 +707,26 @@ void run_c15(Judge& j, uint64_t extra_random) {
         sub("w/#", false, {}, wild_ok ? 0 : 108);
         sub("$share/grp/{tag}t", true, {}, shared_ok ? 0 : 110);
         { ref::Props p; ref::Prop x; x.id = 0x0B; x.num = 7; p.push_back(x); sub("idf", false, p, shared_ok ? 0 : 109); }
+        // SUBSCRIBE / UNSUBSCRIBE size boundary: exactly the limit and one byte more
+        if (mps) {
+            for (int un = 0; un < 2; ++un) {
+                auto size_of = [&](size_t L) { ref::Packet p; p.type = un ? ref::UNSUBSCRIBE : ref::SUBSCRIBE; p.pid = 1; std::string f = "v/00000/" + std::string(L, 'f'); if (un) p.unsubs = {f}; else p.subs = {{f, 1}}; return ref::encode(p).size(); };
+                if (size_of(1) >= mps) continue;
+                size_t L = mps; while (L > 1 && size_of(L) > mps) --L;
+                for (int over = 0; over < 2; ++over) {
+                    Action q; q.kind = un ? Action::unsubscribe : Action::subscribe; q.at = t; t += 1 * MS; q.subs = {{std::string(L + over, 'f'), 1}};
+                    q.expect_immediate = over; q.expect_ec = over ? 101 : 0;
+                    sc.script.push_back(q);
+                }
+            }
+        }
+        // Topic Alias 0 is never valid; an empty topic name is valid exactly when an alias (within the maximum) is given
+        if (tam && (!mps || mps >= 60)) {
+            auto alias = [&](unsigned a) { ref::Props p; ref::Prop x; x.id = 0x23; x.num = a; p.push_back(x); return p; };
+            pub(0, false, "a0", "p", alias(0), 100);
+            Action e; e.kind = Action::publish; e.at = t; t += 1 * MS; e.qos = 0; e.raw_topic = true; e.topic = ""; e.payload = "aliased"; e.props = alias(1); sc.script.push_back(e);
+            Action e2 = e; e2.at = t; t += 1 * MS; e2.props = alias(tam < 65535 ? tam + 1 : 0); e2.expect_immediate = true; e2.expect_ec = tam < 65535 ? 107 : 100; sc.script.push_back(e2);
+        }
         // DISCONNECT with properties larger than the limit: properties are dropped, not refused
         if (mps && rng.chance(2, 3)) {
             Action d; d.kind = Action::disconnect; d.at = t + 2 * SEC; d.rc = rng.chance(1, 2) ? 0 : 4;
@@ -762,18 +782,54 @@ void run_c16_api(Judge& j, uint64_t n) {
         if (int(i % ctx.nshards) != ctx.shard) continue;
         vu::Rng rng(ctx.seed * 40503 + i * 65537 + 9);
         Scenario sc; sc.family = "c16-api"; sc.seed = ctx.seed; sc.index = i;
-        // an unconnected client: the only endpoint never answers the TCP connect
-        AttemptPlan hang; hang.tcp = AttemptPlan::tcp_hang; sc.default_attempt = hang;
+        // half of the scenarios: an unconnected client (the only endpoint never answers the TCP connect), so that accepted
+        // requests stay pending; the other half: a connected client, so that "sends nothing" is observable on a live connection
+        bool connected = rng.chance(1, 2);
+        AttemptPlan hang; hang.tcp = AttemptPlan::tcp_hang; if (!connected) sc.default_attempt = hang;
         sc.auto_receive = false;
         Action r; r.kind = Action::run; sc.script.push_back(r);
         auto compose = [&]() { std::string s; int parts = (int)rng.range(1, 5); for (int k = 0; k < parts; ++k) s += rng.pick(frag); return s; };
-        vt t = 10 * MS;
+        auto str_ok = [](const std::string& x) { return x.size() <= 65535 && ref::utf8_class(x) == ref::Utf8::clean; };
+        vt t = connected ? 1 * SEC : 10 * MS;
         for (int k = 0; k < 12; ++k) {
             Action a; a.at = t; t += 1 * MS; a.raw_topic = true;
-            int what = (int)rng.below(7);
+            int what = (int)rng.below(12);
+            if (what == 11 && k != 11) what = (int)rng.below(11);   // a disconnect only as the last request of the script
             std::string s = compose();
             if (rng.chance(1, 30)) s = std::string(rng.pick(std::vector<size_t>{65535, 65536}), 'a');
+            else if (rng.chance(1, 30)) s.clear();
             switch (what) {
+                case 7: case 8: {   // subscribe / unsubscribe: user property (key or value under test)
+                    a.kind = what == 7 ? Action::subscribe : Action::unsubscribe; a.subs = {{"ok/filter", 1}};
+                    int np = (int)rng.range(1, 3), pos = (int)rng.below(np); bool ok = true;
+                    for (int q = 0; q < np; ++q) {
+                        ref::Prop p; p.id = 0x26; p.s1 = "k" + std::to_string(q); p.s2 = "v";
+                        if (q == pos) { (rng.chance(1, 2) ? p.s1 : p.s2) = s; ok = str_ok(s); }
+                        a.props.push_back(p);
+                    }
+                    a.expect_immediate = !ok; a.expect_ec = ok ? 0 : 100;
+                    break;
+                }
+                case 9: {   // empty topic list (a SUBSCRIBE/UNSUBSCRIBE without a filter is a protocol error)
+                    a.kind = rng.chance(1, 2) ? Action::subscribe : Action::unsubscribe;
+                    a.expect_immediate = true; a.expect_ec = 104;
+                    break;
+                }
+                case 10: {  // publish: a Subscription Identifier is not a property a client may send in PUBLISH
+                    a.kind = Action::publish; a.qos = (int)rng.below(3); a.topic = "ok/sid"; a.payload = "p";
+                    ref::Prop p; p.id = 0x0B; p.num = rng.pick(std::vector<uint64_t>{1, 5, 268435455}); a.props.push_back(p);
+                    a.expect_immediate = true; a.expect_ec = 100;
+                    break;
+                }
+                case 11: {  // disconnect: Reason String / User Property
+                    a.kind = Action::disconnect; a.rc = rng.chance(1, 2) ? 0 : 4;
+                    ref::Prop p; bool ok = str_ok(s);
+                    if (rng.chance(1, 2)) { p.id = 0x1F; p.s1 = s; } else { p.id = 0x26; p.s1 = rng.chance(1, 2) ? s : "k"; p.s2 = p.s1 == s ? "v" : s; }
+                    if (rng.chance(1, 2)) { ref::Prop q; q.id = 0x26; q.s1 = "first"; q.s2 = "fine"; a.props.push_back(q); }
+                    a.props.push_back(p);
+                    a.expect_immediate = !ok; a.expect_ec = ok ? 0 : 100;
+                    break;
+                }
                 case 0: {   // publish: topic name
                     a.kind = Action::publish; a.qos = (int)rng.below(3); a.topic = s; a.payload = "p";
                     bool ok = ref::topic_name_ok(s);
@@ -834,11 +890,12 @@ void run_c16_api(Judge& j, uint64_t n) {
             }
             sc.script.push_back(a);
         }
-        sc.end = 1 * SEC;
+        sc.end = connected ? 3 * SEC : 1 * SEC;
+        j.res.count(connected ? "api_scenarios_connected" : "api_scenarios_unconnected");
         vu::set_case(sc.family + " index=" + std::to_string(i));
         auto ex = execute(sc);
         j.judge(sc, *ex);
-        // valid requests must NOT have been refused: they stay pending until the final cancel
+        // valid requests must NOT have been refused: they stay pending until the final cancel (or complete, when connected)
         for (auto& o : ex->world->h.ops) {
             if (o.kind == OpKind::run || o.kind == OpKind::recv) continue;
             if (o.immediate_expected) { j.res.count("api_invalid_requests"); continue; }
